@@ -61,6 +61,14 @@ var (
 
 type c12CtxKey struct{}
 
+// c12Stall: both clients re-send a command after a read timeout (3 s, go-redis
+// default; the wrapper configures MaxRetries 3), which executes non-idempotent commands
+// twice. On a starved machine a loopback round trip can exceed 3 s. A step that took
+// longer than 2 s of real time may contain such a retry: the case is then counted as
+// excluded (never as failed) and not judged any further. Every retry path of go-redis
+// (read/write/pool/dial timeout) needs >= 3 s, so no retry hides below the threshold.
+const c12Stall = 2 * time.Second
+
 func c12Setup(t *testing.T) *c12Twins {
 	c12Once.Do(func() {
 		logx.Disable()
@@ -256,7 +264,15 @@ func c12Interp(t *testing.T, c c12Case) (v kit.Verdict) {
 		sort.Strings(v.Classes)
 	}()
 	for i, s := range c.Steps {
-		if msg := e.step(s); msg != "" {
+		t0 := time.Now()
+		msg := e.step(s)
+		if time.Since(t0) > c12Stall {
+			// environment guard, never a failure: see c12Stall
+			e.classes["env:stalled-step"] = true
+			v.Excluded = true
+			return v
+		}
+		if msg != "" {
 			v.Fail = fmt.Sprintf("step %d %s: %s", i, c12Show(s), msg)
 			return v
 		}
@@ -549,6 +565,6 @@ func c12GenStep(g *c12G, top bool) c12Step {
 
 func TestVerif_C12_twin(t *testing.T) {
 	c12Setup(t)
-	kit.Run(t, "C12", "wrapper-twin", kit.Opts{Quick: 1500, Thorough: 48000}, c12Gen,
+	kit.Run(t, "C12", "wrapper-twin", kit.Opts{Quick: 1500, Thorough: 128000}, c12Gen,
 		func(c c12Case) kit.Verdict { return c12Interp(t, c) })
 }
